@@ -74,3 +74,93 @@ def base_contracts(JE=None):
     cs = [evar_is_free_contract(JE), apply_esubst_contract(), apply_ssubst_contract(), instantiate_contract(),
           simplify_contract(), eq_contract()]
     return {c.name: c for c in cs}
+
+
+# ---- C12: metavars, destructuring ---------------------------------------------------------------------------------------------
+def metavars_contract():
+    return Contract('Pattern.metavars', [('self', 'ppat')], 'intset', requires=_pwf_self,
+                    ensures=lambda a, r: [('= metavariables of the expansion', _zset(r) == mvset(E(a['self'])))])
+
+
+def _zset(v):
+    from vc.contract import ShapeMismatch
+    if isinstance(v, SV) and v.kind == 'intset':
+        return v.t
+    if isinstance(v, (set, frozenset)) and not v:
+        return z3.EmptySet(Int)
+    raise ShapeMismatch(f'expected set[int], got {v!r}')
+
+
+_UNWRAP_FIELDS = {'Implies': ['left', 'right'], 'App': ['left', 'right'], 'Exists': ['subpattern'], 'Mu': ['subpattern'],
+                  'ESubst': ['pattern', 'plug', 'var'], 'SSubst': ['pattern', 'plug', 'var'],
+                  'EVar': [], 'SVar': [], 'Symbol': [], 'MetaVar': []}
+
+
+def _cls_name(c):
+    return c.name if hasattr(c, 'name') else str(c)
+
+
+def unwrap_contract(name='Pattern.unwrap', total=False):
+    """cls.unwrap(pattern): the children (in sorted field-name order) of the EXPANSION's top node if it is a `cls`
+    node, else None.  extract: same, but raises instead of returning None."""
+    def fields(a):
+        cn = _cls_name(a['cls'])
+        return cn, [f for f in _UNWRAP_FIELDS[cn] if FKIND[f] == 'pat']
+
+    def result(a):
+        cn, fs = fields(a)
+        tup = ('tuple',) + tuple('ppat' for _ in fs)
+        if total:
+            return tup
+        return ('opt', tup, lambda a: M.is_(cn, E(a['pattern'])))
+
+    def ens(a, r):
+        cn, fs = fields(a)
+        e = E(a['pattern'])
+        if r is None:
+            if total:
+                return [('never None', z3.BoolVal(False))]
+            return [('None only if the expansion is not a %s' % cn, z3.Not(M.is_(cn, e)))]
+        if not isinstance(r, tuple) or len(r) != len(fs):
+            return [('arity of result', z3.BoolVal(False))]
+        out = [('expansion is a %s' % cn, M.is_(cn, e))]
+        for f, x in zip(fs, r):
+            out.append((f'child {f}', E(x) == M.get(cn, f, e)))
+            out.append((f'wf child {f}', pwf(zp(x))))
+        return out
+    return Contract(name, [('cls', ('const', None)), ('pattern', 'ppat')], result,
+                    requires=lambda a: [('wf(pattern)', pwf(zp(a['pattern'])))], ensures=ens,
+                    may_raise=total, noraise_if=(lambda a: M.is_(_cls_name(a['cls']), E(a['pattern']))) if total else None)
+
+
+def deconstruct_contract(cn):
+    """EVar/SVar/Symbol.deconstruct -> name | None ; Exists/Mu.deconstruct -> (var, subpattern) | None, seen through notation."""
+    binder = cn in ('Exists', 'Mu')
+
+    def result(a):
+        inner = ('tuple', 'int', 'ppat') if binder else ('name' if cn == 'Symbol' else 'int')
+        return ('opt', inner, lambda a: M.is_(cn, E(a['pat'])))
+
+    def ens(a, r):
+        e = E(a['pat'])
+        if r is None:
+            return [('None only if the expansion is not a %s' % cn, z3.Not(M.is_(cn, e)))]
+        out = [('expansion is a %s' % cn, M.is_(cn, e))]
+        if binder:
+            if not isinstance(r, tuple) or len(r) != 2:
+                return [('arity of result', z3.BoolVal(False))]
+            out += [('var', zi(r[0]) == M.get(cn, 'var', e)), ('subpattern', E(r[1]) == M.get(cn, 'subpattern', e)),
+                    ('wf subpattern', pwf(zp(r[1])))]
+        else:
+            out.append(('name', zi(r) == M.get(cn, 'name', e)))
+        return out
+    return Contract(f'{cn}.deconstruct', [('pat', 'ppat')], result,
+                    requires=lambda a: [('wf(pat)', pwf(zp(a['pat'])))], ensures=ens)
+
+
+def c12_contracts(JE=None):
+    cs = base_contracts(JE)
+    for c in [metavars_contract(), unwrap_contract('Pattern.unwrap'), unwrap_contract('Pattern.extract', total=True)] + \
+            [deconstruct_contract(cn) for cn in ('EVar', 'SVar', 'Symbol', 'Exists', 'Mu')]:
+        cs[c.name] = c
+    return cs
